@@ -5,7 +5,9 @@ import fcntl, hashlib, json, os, random, re, shutil, subprocess, sys, tempfile, 
 VERIF = os.path.dirname(os.path.dirname(os.path.dirname(os.path.abspath(__file__))))
 REPO = os.environ.get('VERIF_REPO', '/repo')
 COQ = os.path.join(VERIF, 'coq')
-BUILD = os.path.join(VERIF, 'build')
+BUILD = os.environ.get('VERIF_BUILD', os.path.join(VERIF, 'build'))
+# where evidence/ and replays/ are written (default: /verif itself; the seeded-mutant regression writes elsewhere)
+OUT = os.environ.get('VERIF_OUT', VERIF)
 GOENV = dict(os.environ, GOFLAGS='-mod=mod', GOPROXY='off', GOSUMDB='off', GOTOOLCHAIN='local',
              CGO_ENABLED='0')
 COQ_Q = ['-Q', os.path.join(COQ, 'Model'), 'NP', '-Q', os.path.join(COQ, 'Proofs'), 'NP',
@@ -232,7 +234,7 @@ class Run:
         self.proof_ok = True
         self.proof_notes = []
         self._distinct = set()
-        self.replay_dir = os.path.join(VERIF, 'replays', prop)
+        self.replay_dir = os.path.join(OUT, 'replays', prop)
 
     # ---- proof stage ----
     def stage_proofs(self):
@@ -325,8 +327,8 @@ class Run:
               'wall_s': round(time.time() - self.t0, 2), 'violations': len(seen),
               'known_findings_hit': {k: v['count'] for k, v in self.known_hits.items()},
               'log': self.log}
-        os.makedirs(os.path.join(VERIF, 'evidence'), exist_ok=True)
-        with open(os.path.join(VERIF, 'evidence', self.prop + '.json'), 'w') as f:
+        os.makedirs(os.path.join(OUT, 'evidence'), exist_ok=True)
+        with open(os.path.join(OUT, 'evidence', self.prop + '.json'), 'w') as f:
             json.dump(ev, f, indent=1, sort_keys=True)
         print('%s %s: evaluations=%d distinct_nontrivial=%d obligations=%d discharged=%d violations=%d wall=%.1fs' % (
             self.prop, self.tier, self.cov['evaluations'], self.cov['distinct_nontrivial'],
